@@ -981,6 +981,64 @@ theorem own_identity_only_in_checktx :
         e.1.use == "mux.state.LocalMinGasPrice" || e.1.use == "ctx.AppState().OwnTxSigner") ||
       e.2.1 == LocalClass.checkTxOnly) = true := by decide
 
+
+/-! ### The node-local upgrade store on delivery paths
+
+Every call of `upgrader.<method>` in the abci package and the applications, with every `return` /
+`panic` inside the statement that consumes its result.  The local store is not part of the
+replicated state and is not rolled back with a discarded proposal, so its answers depend on how
+often this node executed a block: a result of `SubmitDescriptor` / `CancelUpgrade` must never reach
+a returned error or the state.  Pinned: those calls have no exit at all in their consuming
+statement ("the error is only logged"); the remaining calls only halt or panic the node. -/
+
+inductive UpgraderUse where
+  /-- Halts or panics the node; never alters a response. -/
+  | haltOrPanic
+  | checkTxOnly
+  /-- The result is only logged: no `return`, no `panic` in the consuming statement. -/
+  | logOnly
+  deriving DecidableEq, Repr
+
+def expectedUpgrader : List ((String × String × String × List String) × UpgraderUse × String) := [
+  (("go/consensus/cometbft/abci/mux.go", "abciMux.BeginBlock", "ConsensusUpgrade", ["panic(fmt.Errorf(\"mux: error while trying to perform consensus upgrade: %w\", err))"]),
+    .haltOrPanic, "ErrStopForUpgrade halts the node, any other error panics: the node stops, no response is altered"),
+  (("go/consensus/cometbft/abci/mux.go", "abciMux.EndBlock", "ConsensusUpgrade", ["panic(fmt.Errorf(\"mux: error while trying to perform consensus upgrade: %w\", err))"]),
+    .haltOrPanic, "an error panics (node stops)"),
+  (("go/consensus/cometbft/abci/transaction.go", "abciMux.executeTx", "HasPendingUpgradeAt", ["return fmt.Errorf(\"failed to check for pending upgrades: %w\", err)"]),
+    .checkTxOnly, "under `upgrader != nil && ctx.IsCheckOnly()` (see local_inputs_classified)"),
+  (("go/consensus/cometbft/abci/upgrade.go", "abciMux.maybeHaltForUpgrade", "ConsensusUpgrade", ["return"]),
+    .haltOrPanic, "after Commit: halts the node or logs a warning"),
+  (("go/consensus/cometbft/apps/governance/governance.go", "Application.BeginBlock", "GetUpgrade", ["return upgrade.ErrStopForUpgrade", "return upgrade.ErrStopForUpgrade", "return upgrade.ErrStopForUpgrade"]),
+    .haltOrPanic, "every exit is ErrStopForUpgrade, which BeginBlock turns into a node halt"),
+  (("go/consensus/cometbft/apps/governance/governance.go", "Application.executeProposal", "SubmitDescriptor", []),
+    .logOnly, "the local store may answer ErrAlreadyPending on a re-execution of the block: the error is only logged"),
+  (("go/consensus/cometbft/apps/governance/governance.go", "Application.executeProposal", "CancelUpgrade", []),
+    .logOnly, "likewise: only logged"),
+  (("go/consensus/cometbft/apps/governance/messages.go", "Application.completeStateSync", "SubmitDescriptor", []),
+    .logOnly, "start-up / state-sync hook: only logged")
+]
+
+/-- Every call of the node-local upgrade manager is known, with the exits of its consuming statement. -/
+theorem upgrader_calls_classified :
+    Generated.MuxFacts.upgraderCalls.map (fun c => (c.file, c.fn, c.method, c.exits)) = expectedUpgrader.map (·.1) := rfl
+
+/-- **The local upgrade store never influences results**: what `SubmitDescriptor` and
+`CancelUpgrade` answer is consumed by statements without any `return` or `panic`; calls classified
+`logOnly` have no exits. -/
+theorem upgrader_store_results_only_logged :
+    (Generated.MuxFacts.upgraderCalls.filter
+      (fun c => c.method == "SubmitDescriptor" || c.method == "CancelUpgrade")).all (fun c => c.exits.isEmpty) = true ∧
+    expectedUpgrader.all (fun e => e.2.1 != UpgraderUse.logOnly || e.1.2.2.2.isEmpty) = true ∧
+    (Generated.MuxFacts.upgraderCalls.filter
+      (fun c => c.method == "SubmitDescriptor" || c.method == "CancelUpgrade")).length = 3 := by decide
+
+/-- The two statements of governance `executeProposal` that hand an accepted (cancelled) upgrade to
+the local store, verbatim: the error is logged and dropped. -/
+theorem source_executeProposal_logs_only :
+    (Generated.MuxFacts.upgraderCalls.filter (fun c => c.fn == "Application.executeProposal")).map (·.stmt) =
+    ["if err = upgrader.SubmitDescriptor(&proposal.Content.Upgrade.Descriptor); err != nil { ctx.Logger().Error(\"failed to locally apply the upgrade descriptor\", \"err\", err, \"descriptor\", proposal.Content.Upgrade.Descriptor, ) }",
+     "if err = upgrader.CancelUpgrade(&upgradeProposal.Descriptor); err != nil { ctx.Logger().Error(\"failed to locally cancel the upgrade\", \"err\", err, \"descriptor\", upgradeProposal.Descriptor, ) }"] := rfl
+
 /-! ## The regenerated map-range site ledger
 
 `tools/gen maprange` lists (with go/types) every place in the consensus-critical packages where
